@@ -1,0 +1,20 @@
+//! Verification hooks, compiled only with the `verif_hooks` feature.
+//!
+//! They expose, without changing any behaviour, two things the public API
+//! hides: the cfg-selected fused multiply-add used by the arithmetic, and
+//! unchecked construction of a `TwoFloat` from two arbitrary words.
+
+use crate::TwoFloat;
+
+/// The crate's internal fused multiply-add (`f64::mul_add` or `libm::fma`).
+pub fn fma(x: f64, y: f64, z: f64) -> f64 {
+    crate::arithmetic::verif_fma(x, y, z)
+}
+
+/// Name of the fma implementation selected by the build configuration.
+pub const FMA_BACKEND: &str = crate::arithmetic::VERIF_FMA_BACKEND;
+
+/// Builds a `TwoFloat` from raw words without any validity check.
+pub fn raw(hi: f64, lo: f64) -> TwoFloat {
+    TwoFloat { hi, lo }
+}
